@@ -4,10 +4,13 @@ package quic_test
 // connections under fault schedules (see internal/verif/wiretap/tap.go for the oracle).
 
 import (
+	"fmt"
 	"testing"
 
 	"github.com/refraction-networking/uquic/internal/verif/evlog"
 	"github.com/refraction-networking/uquic/internal/verif/quicworld"
+	"github.com/refraction-networking/uquic/internal/verif/simworld"
+	"github.com/refraction-networking/uquic/internal/verif/wiretap"
 )
 
 func TestVerifC04Wire(t *testing.T) {
@@ -19,6 +22,25 @@ func TestVerifC04Wire(t *testing.T) {
 		cases = quicworld.FaultSuite(l, clients, []string{"S2"}, 3, 250, 100, 150)
 	} else {
 		cases = quicworld.FaultSuite(l, clients, []string{"S2", "S4"}, 8, 4000, 3000, 3000)
+	}
+	// a client whose three per-stream-type windows differ (48 kB for streams it opens, 6 kB for streams the
+	// server opens, 9 kB for unidirectional ones): streams of every kind and initiator that need far more
+	// than the smallest of them, fault-free and with a drop on each of the first datagrams
+	asym := quicworld.TransferSpec{Streams: []quicworld.StreamSpec{
+		{Bytes: 30000, Reply: 60000}, {Bytes: 500, Reply: 40000, FromServer: true}, {Bytes: 40000, Reply: 500, FromServer: true},
+		{Uni: true, Bytes: 30000, FromServer: true}, {Uni: true, Bytes: 30000}}}
+	for _, cl := range []string{"Firefox_116A~asym", "Chrome_115_IPv4~asym"} {
+		mk := func(name string, fs []simworld.Fault) {
+			ts := asym
+			ts.ChunkSeed = uint64(len(cases))
+			cases = append(cases, &quicworld.ConnCase{Name: "asym/" + cl + "/" + name, Client: cl, Schedule: simworld.Schedule{Faults: fs}, Transfer: ts, ConnIdx: len(cases), RTTms: 10})
+		}
+		mk("clean", nil)
+		for d := 0; d < 2; d++ {
+			for o := 0; o < l.Pick(6, 30); o++ {
+				mk(fmt.Sprintf("d%d-o%d-drop", d, o), []simworld.Fault{{Dir: wiretap.Dir(d), Ordinal: o, Action: simworld.Action{Kind: "drop"}}})
+			}
+		}
 	}
 	quicworld.RunSuite(t, l, cases, quicworld.WireReporter(l, "C04"))
 }
